@@ -138,6 +138,9 @@ class NsHandler:
         while name.startswith(":"):
             name = _strip_edges(name[1:])
             defaultns = 0
+        # capitalise before the namespace lookup, so that the lookup sees what a
+        # second pass over the result would see ('\u0131mage:x' -> 'Image:x')
+        name = self.maybe_capitalize(name)
 
         if ":" in name:
             namespace, partial_name = name.split(":", 1)
